@@ -334,7 +334,7 @@ SP_OUTPUT = '''from typing import Literal, Optional
 keep_me = 42
 
 
-def helper({oarg}, unrelated=3):
+def helper({oarg}{hargdef}, unrelated=3):
     return {oarg}
 
 
@@ -348,7 +348,7 @@ class Target(object):
         return keep
 
 
-def target_fn({oarg}: str, keep: int = 1, *, {okw2}: float = 0.5):
+def target_fn({oarg}: str{oargdef}, keep: int = 1, *, {okw2}: float = 0.5):
     """ doc """
     return keep
 
@@ -369,6 +369,12 @@ def sp_op(proj, ch, lab, _files):
     tlab = proj.sp_types if proj is not None else lab
     cattr, marg, farg, kwarg, oconst, oarg, oattr, omarg, okw = names
     okw2 = okw if Chooser(ch.seed).fork("sp-kw-" + tlab).chance("samekw", 0.5) else okw + "2"
+    # "copy the setting of that name": the class attribute of the input module bears the name of a property of the
+    # output module (the commonest real use); such a pair then addresses exactly the property of that name
+    same = Chooser(ch.seed).fork("sp-same-" + tlab)
+    samename = same.chance("samename", 0.3)
+    if samename:
+        cattr = same.choice("which", [okw, okw2, oarg, omarg, oattr])
     typs = ["Literal['a', 'b']", "Optional[int]", "int", "Literal['x']", "Optional[str]", "float"]
 
     def td(l):
@@ -395,7 +401,9 @@ def sp_op(proj, ch, lab, _files):
     consts = "%s = %s\n%smodule_attr: %s = %s" % (evalname, choices_val, "EXTRA = ('u', 'v')\n" if with_extra else "", ctyp, cdef)
     inp = SP_INPUT.format(consts=consts, cattr=cattr, ctyp=ctyp, cdef=cdef, marg=marg, mtyp=mtyp, mdef=mdef, farg=farg, ftyp=ftyp,
                           kwarg=kwarg, kwtyp=kwtyp, kwdef=kwdef)
-    outp = SP_OUTPUT.format(oconst=oconst, oarg=oarg, oattr=oattr, omarg=omarg, okw=okw, okw2=okw2)
+    # whether the leading positional parameters have defaults decides how the defaults list lines up with the arguments
+    outp = SP_OUTPUT.format(oconst=oconst, oarg=oarg, oattr=oattr, omarg=omarg, okw=okw, okw2=okw2,
+                            oargdef=' = "o"' if tch.chance("oargdef", 0.5) else "", hargdef="=None" if tch.chance("hargdef", 0.3) else "")
     if not tch.chance("nl", 0.8):
         outp = outp.rstrip("\n")
     in_addrs = ["Source." + cattr, "Source.method." + marg, "source_fn." + farg, "source_fn." + kwarg, "module_attr"]
@@ -429,8 +437,26 @@ def sp_op(proj, ch, lab, _files):
                     break
             landed.add((scope, a.rpartition(".")[2]))
         pairs.append([a, outs[j]])
+    if samename and not ev:
+        scope_names = {"": [oconst, "keep_me"], "Target": [oattr, "other_attr"], "Target.method": [omarg, "keep", okw],
+                       "target_fn": [oarg, "keep", okw2], "Later.method": [omarg], "helper": [oarg, "unrelated"]}
+        homes = [x for x in out_addrs if x.rpartition(".")[2] == cattr]
+        if ch.chance(lab + ".samefirst", 0.6):
+            pairs[0] = ["Source." + cattr, ch.choice(lab + ".samehome", homes)]
+        taken = set()
+        for j, (a, o) in enumerate(pairs):
+            scope = o.rpartition(".")[0]
+            if a == "Source." + cattr and cattr in scope_names[scope] and o.rpartition(".")[2] != cattr:
+                o = (scope + "." if scope else "") + cattr  # the property of that name, not its neighbour
+            if o in taken or (a != "Source." + cattr and j and a.rpartition(".")[2] in [x[0].rpartition(".")[2] for x in pairs[:j] if x and x[1].rpartition(".")[0] == scope]):
+                pairs[j] = None
+                continue
+            taken.add(o)
+            pairs[j] = [a, o]
+        pairs = [x for x in pairs if x]
+        npairs = len(pairs)
     clash = False
-    if not ev and ch.chance(lab + ".clash", 0.18):
+    if not ev and not samename and ch.chance(lab + ".clash", 0.18):
         # an earlier pair writes a name into a definition in which a later pair addresses a property of that very name
         # (the classic "swap two parameters"): each pair must still hit the property it addresses in the file as given
         clash = True
